@@ -50,8 +50,18 @@ func (c *Ctx) idSpec() *Spec {
 			}
 			return ""
 		},
-		Cond:   p.condMentions("Enabled", "strings.TrimSpace("),
-		Expand: func(*ssa.Function, ssa.CallInstruction) bool { return false },
+		Cond: p.condMentions("Enabled", "strings.TrimSpace(", "Header).Values(", "Header).Get("),
+		Expand: func(callee *ssa.Function, site ssa.CallInstruction) bool {
+			pk := fnPkg(callee)
+			if pk == nil || !strings.HasSuffix(pk.Pkg.Path(), "/internal/logging") {
+				return false
+			}
+			switch callee.Name() {
+			case "generateIdentifier", "RequestHeaderName", "TraceHeaderName", "L", "WithContext", "enrichLogger", "contextWithLogger", "handleRequestID", "handleTraceID":
+				return false
+			}
+			return true // local helpers shared by the two handlers
+		},
 	}
 }
 
@@ -459,8 +469,8 @@ func (c *Ctx) chainOrder(bc *ssa.Function) {
 	}
 	// the middleware comes from the factory of chain[i]; i runs len-1 … 0
 	mwDesc := p.Desc(apply.Call.Value, nil)
-	if !strings.Contains(mwDesc, "glob:plugins.builtins[") || !strings.Contains(mwDesc, "config.PluginConfig.Name") {
-		bad = append(bad, "the applied middleware is not built by the registered factory of the element's name: "+mwDesc)
+	if mwDesc != "call:dyn[glob:plugins.builtins[fld:config.PluginConfig.Name]#0](fld:config.PluginConfig.Name,fld:config.PluginConfig.Config)#0" {
+		bad = append(bad, "the middleware applied for an element is not exactly the registered factory of that element's name called with that element's own configuration (every listed entry must be built and validated from its own payload): "+mwDesc)
 	}
 	var idx *ssa.Phi
 	instrsOf(bc, func(in ssa.Instruction) {
